@@ -23,7 +23,9 @@ pub enum Ev {
     M { r: u8, th: u8 },
 }
 
-pub const TAGS: &[&str] = &["clean", "dup", "swap", "corrupt", "spike", "extra_prefix"];
+pub const TAGS: &[&str] = &["clean", "dup", "swap", "corrupt", "spike", "extra_prefix", "silent"];
+/// delivery tag: update() only, no last() afterwards
+pub const SILENT: u8 = 6;
 
 impl Ev {
     pub fn kind_code(&self) -> u64 {
@@ -245,7 +247,7 @@ impl Scenario {
         let mut ev = String::new();
         for e in self.events.iter().take(40) {
             match e {
-                Ev::D { r, v, tag } => ev.push_str(&format!("D{}({}{}) ", r, v, if *tag > 0 { format!("!{}", TAGS[*tag as usize]) } else { String::new() })),
+                Ev::D { r, v, tag } => ev.push_str(&format!("D{}({}{}) ", r, v, if *tag > 0 { format!("!{}", TAGS[(*tag as usize).min(TAGS.len() - 1)]) } else { String::new() })),
                 Ev::L { r } => ev.push_str(&format!("L{} ", r)),
                 Ev::O { r, k } => ev.push_str(&format!("O{}x{} ", r, k)),
                 Ev::F { r } => ev.push_str(&format!("F{} ", r)),
